@@ -11,6 +11,8 @@ from .run import Check, Section
 _dir = None
 _cls = {}
 FMT = dict(anc="s", beta=".2f", cnt="d", score=".3f", note="s")
+# the format of an extra field is any Python format string: repeats print their effect in exponent notation
+FMTT = {"H": FMT, "V": FMT, "R": dict(FMT, beta=".2e")}
 COMMENTS = ["#", "# ", "#text", "#\ttext", "# a comment", "#H", "#H\t", "#\tfoo\tbar", "#V", "##double", "# version 1 of the reference panel", "# orderH beta ancestry were fitted", "# orderV score", "#  version 9.9.9"]  # the last four: prose that starts with the name of a metadata line
 
 
@@ -56,7 +58,7 @@ def classes():
     @dataclass
     class R1(Repeat):
         beta: float
-        _extras: tuple = field(repr=False, init=False, default=(Extra("beta", ".2f", "effect"),))
+        _extras: tuple = field(repr=False, init=False, default=(Extra("beta", ".2e", "effect"),))
 
     _cls.update(H3=H3, H1=H1, V1=V1, V2=V2, R1=R1, H0=Haplotype, V0=Variant, R0=Repeat)
     return _cls
@@ -116,7 +118,7 @@ def canon(hs, names):
     out = []
     for k, o in hs.data.items():
         t = "H" if isinstance(o, Haplotype) else "R"
-        ex = lambda obj, tt: [[n, format(getattr(obj, n), FMT[n])] for n in names[tt]]
+        ex = lambda obj, tt: [[n, format(getattr(obj, n), FMTT[tt][n])] for n in names[tt]]
         owner = {"t": t, "mand": [o.chrom, str(o.start), str(o.end), o.id], "extras": ex(o, t)}
         vs = [{"t": "V", "mand": [o.id, str(v.start), str(v.end), v.id, v.allele], "extras": ex(v, "V")} for v in getattr(o, "variants", ())]
         out.append([owner, vs])
@@ -174,6 +176,15 @@ def impl(case):
     r3.read()
     _lines[C.jdump(case)] = [l.split("\t") for l in allines]
     obs = {"same_bytes": raw == raw2, "first_write": [l.split("\t") for l in lines] if not raw == raw2 else None, "read": canon(r3, rd["names"])}
+    # the collection this reader holds, written by its own classes (only the extras it asked for) and read back with them:
+    # the round trip of the statement for every set of line classes, each class being used for file after file in one process
+    f5 = _dir / "w5.hap"
+    r3.fname = f5
+    r3.write()
+    r5 = Haplotypes(f5, haplotype=K[rd["kw"][0]], variant=K[rd["kw"][1]], repeat=K[rd["kw"][2]], log=SD.silent_log())
+    r5.read()
+    if canon(r5, rd["names"]) != obs["read"]:
+        obs["own_roundtrip_differs"] = True
     if C.plumb(case, "stream", 4) == 0:
         # the same file offered as a stream (what `cat x.hap | haptools … /dev/stdin` hands the reader): same records
         with C.as_stream(f3) as fifo:
@@ -199,13 +210,15 @@ def oracle(case, obs):
         return f"write/read raised {obs}"
     if not obs["same_bytes"]:
         return "writing what was read does not reproduce the file byte for byte"
+    if obs.get("own_roundtrip_differs"):
+        return f"the records read with the {case['reader']} classes, written with those classes and read back, are not the same records"
     if obs.get("stream_differs"):
         return "the file read as a stream (a named pipe, as /dev/stdin is) gives other records than the same file read by name"
     rd = READERS[case["reader"]]
     # after the shuffle the file order of the H/R lines is the reader's record order; variants keep file order per haplotype:
     # compare as sets of records with their variant multisets, plus exact field values
     def rec(h):
-        ex = lambda tt, o: [[n, format(o[n], FMT[n])] for n in rd["names"][tt]]
+        ex = lambda tt, o: [[n, format(o[n], FMTT[tt][n])] for n in rd["names"][tt]]
         owner = {"t": h["t"], "mand": [h["chrom"], str(h["start"]), str(h["end"]), h["id"]], "extras": ex(h["t"], h)}
         vs = [{"t": "V", "mand": [h["id"], str(v["start"]), str(v["end"]), v["id"], v["allele"]], "extras": ex("V", v)} for v in h.get("vars", [])]
         return owner, vs
